@@ -2,7 +2,7 @@
 From Coq Require Import List NArith ZArith.
 From Muscle Require Import Refl.Base Refl.BaseProofs Refl.Tree Refl.Matcher Refl.Session Refl.Server Refl.ServerProofs
      Refl.IsoModel Refl.IsoBase Refl.IsoFrame Refl.IsoProofs Refl.IsoTold Refl.IsoDetach Refl.IsoRun Refl.IsoClean
-     Refl.IsoSimBase Refl.IsoSim Refl.IsoHosts Refl.IsoNever Refl.IsoExamples.
+     Refl.IsoSimBase Refl.IsoSim Refl.IsoHosts Refl.IsoNever Refl.IsoHonest Refl.IsoExamples.
 Import ListNotations.
 
 (* A client cannot give itself privileges. *)
@@ -152,3 +152,11 @@ Proof.
       repeat (destruct Hin as [Hin|Hin]; [subst ss; cbn; discriminate|]); destruct Hin.
   - split; [repeat constructor|]. vm_compute. repeat split; reflexivity.
 Qed.
+
+(* FORGED SESSION FIELDS.  Whatever what-code, keys and PR_NAME_SESSION string a session puts into a Message, in any state:
+   everything the dispatcher adds to the outgoing log is either a bounce / reply to the sender itself, or a copy for SOMEBODY
+   ELSE that names the true sender and carries the sender's own session name in PR_NAME_SESSION (if the field was present). *)
+Theorem C06_session_field_true : forall (M : MatchOps) (fx : fixes) xs ss what keys sess,
+  exists added, xs_log (dispatch fx xs ss what keys sess) = xs_log xs ++ added /\ Forall (honest ss what sess) added.
+Proof. exact @dispatch_honest. Qed.
+Print Assumptions C06_session_field_true.
